@@ -470,6 +470,9 @@ class System:
                         p, comp._component_type.name
                     )
                 )
+        # the same parent given twice (e.g. once by name and once by its rail)
+        if len(pidx) > len(set(pidx)):
+            raise ValueError("parent paramenter contains duplicates!")
         # can only have one pmux
         if comp._component_type.name == "PMUX":
             for key in self._g.attrs["nodes"]:
